@@ -175,7 +175,11 @@ func (c *ShipConnection) CloseConnection(safe bool, code int, reason string) {
 				},
 			}
 
-			_ = c.sendShipModel(model.MsgTypeEnd, closeMessage)
+			// do not use sendShipModel here: it closes the connection itself when the transport
+			// is found closed, which would re-enter shutdownOnce from inside its own function
+			if shipMsg, err := c.encodeShipMessage(model.MsgTypeEnd, closeMessage); err == nil {
+				_ = c.dataWriter.WriteMessageToWebsocketConnection(shipMsg)
+			}
 
 			go func() {
 				// wait a bit to let it send
@@ -404,6 +408,11 @@ func (c *ShipConnection) shipMessage(typ byte, model interface{}) ([]byte, error
 		return nil, err
 	}
 
+	return c.encodeShipMessage(typ, model)
+}
+
+// transform a SHIP model into EEBUS specific JSON without checking the transport
+func (c *ShipConnection) encodeShipMessage(typ byte, model interface{}) ([]byte, error) {
 	if model == nil {
 		return nil, errors.New("invalid data")
 	}
